@@ -967,6 +967,10 @@ func (n *node) Kill(pid gen.PID) error {
 	case int32(gen.ProcessStateWaitResponse), int32(gen.ProcessStateRunning):
 		// do not unregister process until its goroutine stopped
 		return nil
+	case int32(gen.ProcessStateZombee):
+		// already killed: the process is being (or about to be) torn down
+		// by the goroutine that owns it
+		return nil
 	case int32(gen.ProcessStateTerminated):
 		lib.VerifPoint("kill.storeT", p)
 		atomic.StoreInt32(&p.state, int32(gen.ProcessStateTerminated))
